@@ -218,6 +218,25 @@ fn judge_f64(st: &mut Stats, rng: &mut Rng) {
             (Err(step), Outcome::Panic { msg, .. }) => { st.count("solve:f64:exact-refused"); if !refusal_ok(&msg) { st.violation("C05:solve:f64:refusal-message", format!("step {} message '{}'; {}", step, msg, desc())); } }
             _ => {}
         }
+        // a tiny but NON-zero last pivot: sub[n-2] is chosen so that main[n-1] - sub*gamma == ulp(main[n-1]) exactly
+        // (pred(m) is representable); elimination meets no zero pivot, so the solver must not refuse
+        if n >= 2 && zero_at.is_none() && rng.chance(0.5) {
+            // gamma at the last step = sup[n-2] / beta_{n-2}; in this class beta_k == ud[k] (a power of two)
+            if uu[n - 2] != 0 && (uu[n - 2].abs() as u64).is_power_of_two() {
+                let g = uu[n - 2] as f64 / ud[n - 2] as f64;
+                let mlast = *rng.pick(&[1.0f64, 2.0, 4.0, -1.0, 0.5]);
+                let pred = f64::from_bits(mlast.abs().to_bits() - 1) * mlast.signum();
+                let mut t2 = Tri { sub: tf.sub.clone(), main: tf.main.clone(), sup: tf.sup.clone() };
+                t2.sub[n - 2] = pred / g;
+                t2.main[n - 1] = mlast;
+                let m2 = t2.build(0);
+                st.eval();
+                match catch(|| m2.solve(&Vector::create(rf.clone()))) {
+                    Outcome::Panic { msg, .. } => st.violation("C05:solve:f64:refused-without-zero-pivot", format!("last pivot is ulp({}) = {:e}, not zero, yet solve panicked '{}'; sub={:?} main={:?} sup={:?}", mlast, (mlast - pred).abs(), msg, t2.sub, t2.main, t2.sup)),
+                    _ => st.count("solve:f64:half-ulp-pivot-not-refused"),
+                }
+            }
+        }
         // product and det on integer data are exact
         let v: Vec<f64> = (0..n).map(|_| rng.int(-9, 9) as f64).collect();
         let d = tf.dense();
